@@ -156,7 +156,7 @@ impl Program {
                 "inner_array": a.inner.as_ref().map(|(c, p)| json!({"count": c, "pitch_xy": [p.0, p.1]})), "innermost_array": a.inner2.as_ref().map(|(c, p)| json!({"count": c, "pitch_xy": [p.0, p.1]})), "reflect_horiz": a.rh, "reflect_vert": a.rv, "loc": [a.at.0, a.at.1]}))
             .collect();
         let cells: Vec<Value> = self.cells.iter().enumerate().map(|(i, c)| json!({"name": format!("c{i}"), "outline_rect": [c.0, c.1]})).collect();
-        json!({"cells": cells, "instances": insts, "arrays": arrays, "parent_listed_first": self.parent_first, "two_parent_cells_second_moved_by_31_-17": self.two_parents, "stepped_outlines_same_bounding_box": self.stepped})
+        json!({"cells": cells, "instances": insts, "arrays": arrays, "parent_listed_first": self.parent_first, "two_parent_cells_second_moved_by_31_-17_and_with_an_abstract_view": self.two_parents, "stepped_outlines_same_bounding_box": self.stepped})
     }
 }
 
@@ -317,7 +317,11 @@ pub fn run_program(p: &Program, listing: &[usize]) -> Result<Vec<ParentSeen>, St
             parent.places.push(Placeable::Array(Ptr::new(ai)));
         }
         all_inst_ptrs.extend(ptrs);
-        let c: tetris::cell::Cell = parent.into();
+        let mut c: tetris::cell::Cell = parent.into();
+        if pi == 1 {
+            // the second parent has an abstract view next to its layout: its placements must be resolved all the same
+            c.abs = Some(tetris::abs::Abstract::new("parent1", 0, Outline::rect(200, 200).map_err(|e| format!("setup: {e:?}"))?));
+        }
         parents.push(Ptr::new(c));
     }
     if p.parent_first {
@@ -951,7 +955,7 @@ impl CaseDriver for Arr {
     }
     fn describe(&self, t: Tier) -> Describe {
         describe_with(format!(
-            "array instances at an absolute origin ((9,13) / (-5,-8) / (0,0) / (0,20) / (30,0)): count 1..={} x pitch {{(4,0),(0,5),(4,-3),(-6,2)}} x 4 reflections x unit {{cell, inner array of count 1..=3 x 4 pitches, optionally (costed) holding a third level of count 1..=2 x 4 pitches}} x with/without two ordinary instances (one absolute, one placed relative to it) in the same layout, full product, each also with stepped outlines or with a second, moved parent cell holding the same program. State = one program; non-trivial = more than one child.",
+            "array instances at an absolute origin ((9,13) / (-5,-8) / (0,0) / (0,20) / (30,0)): count 1..={} x pitch {{(4,0),(0,5),(4,-3),(-6,2)}} x 4 reflections x unit {{cell, inner array of count 1..=3 x 4 pitches, optionally (costed) holding a third level of count 1..=2 x 4 pitches}} x with/without two ordinary instances (one absolute, one placed relative to it) in the same layout, full product, each also with stepped outlines or with a second, moved parent cell holding the same program (that cell also has an abstract view). State = one program; non-trivial = more than one child.",
             t.pick(3, 4)
         ))
     }
